@@ -112,6 +112,14 @@ def c12_family(quick=False):
                  mix={"K": "store_content", "N": "fold_one", "M": "store_content"}, acts=("0", "v")))
     out.append(G([("K", "seq< one< 'a' >, opt< one< 'b' > > >"), ("N", "seq< at< K >, K >")], "seq< opt< N >, star< sor< K, any > > >", ["veto"],
                  mix={"K": "store_content", "N": "remove_content"}, acts=("0", "v")))
+    # must_if control: a rule with a message fails inside try_catch_return_false and the parse continues through another alternative;
+    # the rule is (a) unselected with selected descendants, (b) an unselected leaf, (c) selected
+    for mixk in ({"A": "store_content", "C": "store_content", "G": "store_content"}, {"G": "store_content", "C": "store_content"},
+                 {"M": "store_content", "A": "store_content", "C": "store_content", "G": "store_content"}):
+        out.append(G([("A", A), ("C", C), ("M", "seq< A, one< 'b' > >, c12::with_msg")], "sor< try_catch_return_false< seq< M, C > >, seq< A, C >, star< any > >", ["catch", "mustif"],
+                     mix=mixk, acts=("0", "mi")))
+    out.append(G([("A", A), ("C", C), ("T", "one< 'b' >, c12::with_msg"), ("M", "seq< A, T >")], "seq< opt< try_catch_return_false< M > >, star< sor< A, C, any > > >", ["catch", "mustif"],
+                 mix={"A": "store_content", "C": "store_content", "G": "store_content"}, acts=("0", "mi")))
     # the recorded finding: the rule's own action throws, try_catch continues
     out.append(G([("A", A + ", c12::thrower"), ("B", A), ("T", "try_catch_any_return_false< A >")], "sor< T, B >", ["witness", "own_throw"],
                  mix={"A": "store_content", "B": "store_content", "T": "store_content", "G": "store_content"}, acts=("0", "t")))
